@@ -153,6 +153,11 @@ def _dict_defs(f, name):
     for _, dv in astx.defs_of(f.node, name):
         if isinstance(dv, ast.Dict) and len(dv.keys) == 1:
             out.append((dv.keys[0], dv.values[0]))
+    # entries put into the mapping one at a time:  name[key] = value
+    for n in astx.walk_own(f.node):
+        if isinstance(n, ast.Assign) and len(n.targets) == 1 and isinstance(n.targets[0], ast.Subscript) and astx.is_name(n.targets[0].value, name) \
+                and not isinstance(n.targets[0].slice, ast.Slice):
+            out.append((n.targets[0].slice, n.value))
     return out
 
 
